@@ -141,6 +141,12 @@ def base_offset(t: Term) -> tuple[Term, float]:
     return t, 0.0
 
 
+def _nrm(t: Term) -> Term:
+    from ..pattern import norm
+
+    return norm(t)
+
+
 def _cmp_excludes(op: str, const: float, polarity: bool, zero_at: float, flipped: bool) -> bool:
     """Does `base <op> const` (taken with ``polarity``) exclude base == zero_at?
     ``flipped`` means the comparison was written `const <op> base`."""
@@ -164,17 +170,53 @@ def _cmp_excludes(op: str, const: float, polarity: bool, zero_at: float, flipped
     return False
 
 
-def _guard_edges(ctx: Ctx, f: Func, base: Term, zero_at: float):
-    """(test node, label) pairs that establish base != zero_at."""
+def _guard_edges(ctx: Ctx, f: Func, base: Term, zero_at: float, _depth: int = 0):
+    """(node, label) pairs that establish base != zero_at: branches of a test on the
+    base, and the normal return of a call of a checking helper (a package function that
+    raises on every path on which its corresponding argument term equals zero_at)."""
+    from ..callgraph import _is_bound_call, bind_args
+
     cfg = cfg_of(ctx.repo, f)
     out = set()
     for n in cfg.nodes:
-        if n.kind != "test" or n.ast is None:
+        if n.ast is None:
             continue
-        for pol, label in ((True, "true"), (False, "false")):
-            if _test_excludes(ctx, f, n.ast, pol, base, zero_at):
-                out.add((n, label))
+        if n.kind == "test":
+            for pol, label in ((True, "true"), (False, "false")):
+                if _test_excludes(ctx, f, n.ast, pol, base, zero_at):
+                    out.add((n, label))
+        elif n.kind == "stmt" and _depth < 2 and isinstance(n.ast, ast.Expr) and isinstance(n.ast.value, ast.Call):
+            call = n.ast.value
+            for _c, callees, kind in [x for x in ctx.cg.all_callees(f) if x[0] is call]:
+                if kind == "callback" or len(callees) != 1:
+                    continue
+                g = callees[0]
+                if isinstance(g.node, ast.Lambda) or not any(isinstance(x, ast.Raise) for x in ast.walk(g.node)):
+                    continue
+                ct = ctx.X.at(f, call)
+                mapping = bind_args(g, ct, bound=_is_bound_call(ct, g))
+                inv = {v: ("param", g.qualname, k) for k, v in mapping.items() if v[0] != "const"}
+                gbase = _subst_terms(base, inv)
+                if not all(s_[1] == g.qualname for s_ in subterms(gbase) if s_[0] == "param") or not _only_params(gbase):
+                    continue
+                gcfg = cfg_of(ctx.repo, g)
+                gdf = dataflow_of(ctx.repo, g)
+                gguards = _guard_edges(ctx, g, gbase, zero_at, _depth + 1)
+                if not gguards:
+                    continue
+                p_ = PathFinder(gcfg, gdf).find_path(gcfg.entry, lambda m, gcfg=gcfg: m is gcfg.exit, edge_ok=lambda a, b, lab, gg=gguards: (a, lab) not in gg)
+                if p_ is None:
+                    for lab in {lab for _s, lab in n.succ if lab != "exc"}:
+                        out.add((n, lab))
     return out
+
+
+def _subst_terms(t, mapping: dict):
+    if not isinstance(t, tuple):
+        return t
+    if t in mapping:
+        return mapping[t]
+    return tuple(_subst_terms(x, mapping) for x in t)
 
 
 def _test_excludes(ctx: Ctx, f: Func, test: ast.AST, pol: bool, base: Term, zero_at: float) -> bool:
@@ -195,8 +237,9 @@ def _test_excludes(ctx: Ctx, f: Func, test: ast.AST, pol: bool, base: Term, zero
                     return ("const", v)
             return t
 
-        l = base_offset(resolve(ctx.X.at(f, test.left)))
-        r = base_offset(resolve(ctx.X.at(f, test.comparators[0])))
+        l = base_offset(resolve(ctx.X.value_at(f, test.left)))
+        r = base_offset(resolve(ctx.X.value_at(f, test.comparators[0])))
+        l, r = (_nrm(l[0]), l[1]), (_nrm(r[0]), r[1])
         from ..terms import _CMP
 
         op = _CMP.get(type(test.ops[0]), "?")
@@ -207,8 +250,8 @@ def _test_excludes(ctx: Ctx, f: Func, test: ast.AST, pol: bool, base: Term, zero
             return _cmp_excludes(op, l[0][1] + l[1] - r[1], pol, zero_at, True)
         return False
     # truthiness of the base itself (counts are non-negative integers)
-    t = base_offset(ctx.X.at(f, test))
-    if t[0] == base and t[1] == 0 and zero_at == 0:
+    t = base_offset(ctx.X.value_at(f, test))
+    if _nrm(t[0]) == base and t[1] == 0 and zero_at == 0:
         return pol
     return False
 
@@ -247,6 +290,7 @@ def check_division(ctx: Ctx, res: RuleResult, f: Func, node: ast.AST, divisor: a
     if not is_pyscalar(dterm):
         return
     base, off = base_offset(dterm)
+    base = _nrm(base)
     if base[0] == "const":
         if base[1] + off != 0:
             return
